@@ -2,7 +2,6 @@ package method_evaluator
 
 import (
 	"fmt"
-	"slices"
 	"strings"
 	"ti/base"
 )
@@ -50,12 +49,7 @@ func (o *objectIncludeStrategy) evaluate(m *MethodEvaluator) error {
 			base.ClassNode{Frame: parentFrame, Class: parentClass, IsInclude: true}
 	}
 
-	if slices.Contains(base.ClassInheritanceMap[classNode], parentNode) {
-		return nil
-	}
-
-	base.ClassInheritanceMap[classNode] =
-		append(base.ClassInheritanceMap[classNode], parentNode)
+	base.AppendParentClassNode(classNode, parentNode)
 
 	return nil
 }
